@@ -209,6 +209,30 @@ theorem C03_client_failure_never_read (cm : List (String × Mech)) (adv : List S
     rw [List.getElem?_take]; simp [hlt, hi]
   exact (hall _ hm).1 b rfl
 
+/-- **A premature `<success/>` never authenticates.**  If the receiver sends `<success/>` while
+the mechanism, stepped with its payload, still says *more*, the exchange ends with an error,
+unauthenticated, nothing further is written — whatever the mechanism's response at that Step is
+(empty: "it has nothing left to send and was only waiting for the outcome", or not): the
+response plays no role in the decision. -/
+theorem C03_client_premature_success (mech : Mech) (hist : List Bytes) (p : Payload) (c : Bytes)
+    (rest : List CEv) (hp : p.decodeClient = some c) (hk : (mech (hist ++ [c])).kind = .more) :
+    (clientLoop mech hist (.success p :: rest)).authn = false ∧
+    (clientLoop mech hist (.success p :: rest)).err = .unexpected ∧
+    (clientLoop mech hist (.success p :: rest)).sent = [] := by
+  simp [clientLoop, hp, hk, fail]
+
+-- non-vacuity: a mutual-authentication mechanism that answers the nonce with an empty response
+-- and waits for the proof; the receiver sends the nonce in a <success/>
+example :
+    let mech : Mech := fun h => match h with
+      | [] => { kind := .more, resp := [1] }
+      | [_] => { kind := .more, resp := [] }
+      | _ => { kind := .done }
+    (clientNeg [("M", mech)] ["M"] [.success (.valid [7])]).authn = false ∧
+    (clientNeg [("M", mech)] ["M"] [.success (.valid [7])]).err = .unexpected ∧
+    (clientNeg [("M", mech)] ["M"] [.challenge (.valid [7]), .success (.valid [8])]).authn = true := by
+  decide
+
 /-- **Mechanism selection.**  The mechanism selected is the first one of the client's list
 whose name the receiver advertised: it is in both lists, and no earlier entry of the client's
 list is advertised. -/
@@ -228,7 +252,8 @@ theorem C03_client_mech_used (cm : List (String × Mech)) (adv : List String) (p
     name ∈ adv ∧ name ∈ cm.map (·.1) ∧
     ∃ resp rest, (clientNeg cm adv peer).sent = .auth name resp :: rest ∨
       ((clientNeg cm adv peer).sent = [] ∧
-        ((clientNeg cm adv peer).err = .mechErr ∨ (clientNeg cm adv peer).err = .panicked)) := by
+        ((clientNeg cm adv peer).err = .mechErr ∨ (clientNeg cm adv peer).err = .panicked ∨
+          (clientNeg cm adv peer).err = .authnErr)) := by
   unfold clientNeg at h ⊢
   cases hs : select cm adv with
   | none => simp [hs, fail] at h
@@ -244,7 +269,7 @@ theorem C03_client_mech_used (cm : List (String × Mech)) (adv : List String) (p
         subst h <;> refine ⟨h1, hmem, ?_⟩
       · exact ⟨(mech []).resp, _, Or.inl rfl⟩
       · exact ⟨(mech []).resp, _, Or.inl rfl⟩
-      · exact ⟨[], [], Or.inr ⟨rfl, Or.inl rfl⟩⟩
+      · exact ⟨[], [], Or.inr ⟨rfl, Or.inr (Or.inr rfl)⟩⟩
       · refine ⟨[], [], Or.inr ⟨rfl, ?_⟩⟩
         simp only [fail, stepErr]
         cases (mech []).panic <;> simp
@@ -529,13 +554,15 @@ example :
 
 /-! ### the negotiation context on the receiving side -/
 
-/-- **A done context never authenticates.**  Whether or not the implementation looks at the
-negotiation context (`ctx.looks`), and whenever the context becomes done (`ctx.cancelAt`: before
-the first element is read, between two round trips of a multi-step mechanism, …), a result
-that carries the `Authn` bit is exactly the result of the run with a live context — so
-`C03_server_sound` applies to it: an `<auth/>` for a configured mechanism was read, the
-mechanism completed on exactly the payloads received, the permission verdicts are those of
-its last step.  Leaving the loop because the context is done is not a way in. -/
+/-- **A done context never authenticates.**  Wherever the implementation looks at the
+negotiation context (`ctx.top`, `ctx.mid`: at the top of which iterations, after which `Step`s —
+arbitrary predicates), and whenever the context becomes done (`ctx.doneAt`: before the first
+element is read, while an element is in flight, inside a `Step`, while a challenge or the
+closing `<success/>` is written), a result that carries the `Authn` bit is exactly the result
+of the run with a live context — so `C03_server_sound` applies to it: an `<auth/>` for a
+configured mechanism was read, the mechanism completed on exactly the payloads received, the
+permission verdicts are those of its last step, `<success/>` was written.  Leaving the loop
+because the context is done is not a way in. -/
 theorem C03_server_ctx (cfg : List (String × Mech)) (ctx : SCtx) (peer : List SEv) :
     ∀ (cur : Option SCur) (i : Nat), (serverLoopC cfg ctx cur i peer).authn = true →
       serverLoopC cfg ctx cur i peer = serverLoop cfg cur peer := by
@@ -548,14 +575,21 @@ theorem C03_server_ctx (cfg : List (String × Mech)) (ctx : SCtx) (peer : List S
     intro cur i h
     unfold serverLoopC at h ⊢
     unfold serverLoop
-    by_cases hs : ctx.stops i = true
+    by_cases hs : ctx.stopsTop i = true
     · simp [hs] at h
     · simp only [hs, Bool.false_eq_true, if_false] at h ⊢
       cases hev : sevent cfg cur ev with
-      | stop r => rfl
+      | stop r =>
+        simp only [hev] at h ⊢
+        by_cases hm : (r.authn && ctx.stopsMid i) = true
+        · simp [hm, ctxStop] at h
+        · simp [hm]
       | cont c resp perms =>
-        simp only [hev, SRes.after_authn] at h ⊢
-        rw [ih (some c) (i + 1) h]
+        simp only [hev] at h ⊢
+        by_cases hm : ctx.stopsMid i = true
+        · simp [hm, ctxStop] at h
+        · simp only [hm, Bool.false_eq_true, if_false, SRes.after_authn] at h ⊢
+          rw [ih (some c) (i + 1) h]
 
 /-- the context's error is never returned together with the `Authn` bit -/
 theorem C03_server_ctx_fail_closed (cfg : List (String × Mech)) (ctx : SCtx) (peer : List SEv)
@@ -568,40 +602,173 @@ theorem C03_server_ctx_fail_closed (cfg : List (String × Mech)) (ctx : SCtx) (p
     rw [e] at h ha
     exact absurd (serverLoop_authn_err cfg peer cur ha) h
 
-/-- an implementation that looks at the context and finds it done handles no further element:
-nothing is stepped, nothing is written (in particular no `<success/>`), no `Authn` -/
-theorem C03_server_ctx_done (cfg : List (String × Mech)) (k i : Nat) (hk : k ≤ i)
+/-- an implementation that looks at the context at the top of iteration `i` and finds it done
+handles no further element: nothing is stepped, nothing is written (in particular no
+`<success/>`), no `Authn` -/
+theorem C03_server_ctx_done (cfg : List (String × Mech)) (ctx : SCtx) (t i : Nat)
+    (ht : ctx.doneAt = some t) (hk : t ≤ 2 * i) (hl : ctx.top i = true)
     (cur : Option SCur) (peer : List SEv) :
-    (serverLoopC cfg ⟨true, some k⟩ cur i peer).authn = false ∧
-    (serverLoopC cfg ⟨true, some k⟩ cur i peer).err = .ctxErr ∧
-    (serverLoopC cfg ⟨true, some k⟩ cur i peer).sent = [] ∧
-    (serverLoopC cfg ⟨true, some k⟩ cur i peer).perms = [] := by
+    (serverLoopC cfg ctx cur i peer).authn = false ∧
+    (serverLoopC cfg ctx cur i peer).err = .ctxErr ∧
+    (serverLoopC cfg ctx cur i peer).sent = [] ∧
+    (serverLoopC cfg ctx cur i peer).perms = [] := by
   unfold serverLoopC
-  simp [SCtx.stops, hk]
+  simp [SCtx.stopsTop, SCtx.done, ht, hk, hl]
 
-/-- the code as it is (`looks = false`): the context plays no role at all -/
+/-- an implementation that looks at the context after the `Step` of iteration `i` and finds it
+done (it became done while the element was in flight, or inside the `Step` / the permission
+callback) writes neither a `<challenge/>` nor `<success/>` for that `Step` and does not
+authenticate — even when that `Step` completed the mechanism and the callback said yes -/
+theorem C03_server_ctx_done_mid (cfg : List (String × Mech)) (ctx : SCtx) (t i : Nat)
+    (ht : ctx.doneAt = some t) (hk : t ≤ 2 * i + 1) (hl : ctx.mid i = true)
+    (cur : Option SCur) (peer : List SEv) :
+    (serverLoopC cfg ctx cur i peer).authn = false ∧
+    (∀ resp, SSent.success resp ∉ (serverLoopC cfg ctx cur i peer).sent) ∧
+    (∀ resp, SSent.challenge resp ∉ (serverLoopC cfg ctx cur i peer).sent) := by
+  have hmid : ctx.stopsMid i = true := by simp [SCtx.stopsMid, SCtx.done, ht, hk, hl]
+  have hstop : ∀ (r : SRes), sevent cfg cur (peer.headD .space) = .stop r → r.authn = false →
+      (∀ resp, SSent.success resp ∉ r.sent) ∧ (∀ resp, SSent.challenge resp ∉ r.sent) := by
+    intro r he ha
+    have hs : ∀ name m hist p, sstep name m hist p = .stop r →
+        (∀ resp, SSent.success resp ∉ r.sent) ∧ (∀ resp, SSent.challenge resp ∉ r.sent) := by
+      intro name m hist p hs
+      unfold sstep at hs
+      split at hs
+      · cases hs; simp [sfail]
+      · split at hs <;> cases hs <;> simp_all [sfail]
+    cases hev : peer.headD .space with
+    | failure => rw [hev] at he; cases he; simp [sfail]
+    | space => rw [hev] at he; cases he; simp [sfail]
+    | abort => rw [hev] at he; cases he; simp [sfail]
+    | other => rw [hev] at he; cases he; simp [sfail]
+    | otherNs => rw [hev] at he; cases he; simp [sfail]
+    | auth name p =>
+      rw [hev] at he
+      simp only [sevent] at he
+      split at he
+      · cases he; simp [sfail]
+      · split at he
+        · cases he; simp [sfail]
+        · exact hs _ _ _ _ he
+    | response p =>
+      rw [hev] at he
+      simp only [sevent] at he
+      split at he
+      · cases he; simp [sfail]
+      · exact hs _ _ _ _ he
+  unfold serverLoopC
+  by_cases hs : ctx.stopsTop i = true
+  · simp [hs]
+  · simp only [hs, Bool.false_eq_true, if_false]
+    cases peer with
+    | nil => simp
+    | cons ev rest =>
+      cases hev : sevent cfg cur ev with
+      | stop r =>
+        simp only [hev]
+        cases ha : r.authn with
+        | true => simp [hmid, ctxStop]
+        | false =>
+          have := hstop r (by simpa using hev) ha
+          simp [ha, this]
+      | cont c resp perms => simp only [hev]; simp [hmid, ctxStop]
+
+/-- the code as it is (no test anywhere): the context plays no role at all -/
 theorem C03_server_ctx_ignored (cfg : List (String × Mech)) (k : Option Nat) (peer : List SEv) :
-    ∀ (cur : Option SCur) (i : Nat), serverLoopC cfg ⟨false, k⟩ cur i peer = serverLoop cfg cur peer := by
+    ∀ (cur : Option SCur) (i : Nat),
+      serverLoopC cfg { doneAt := k } cur i peer = serverLoop cfg cur peer := by
   induction peer with
-  | nil => intro cur i; unfold serverLoopC; simp [SCtx.stops, serverLoop]
+  | nil => intro cur i; unfold serverLoopC; simp [SCtx.stopsTop, serverLoop]
   | cons ev rest ih =>
     intro cur i
     unfold serverLoopC serverLoop
-    simp only [SCtx.stops, Bool.false_and, Bool.false_eq_true, if_false]
+    simp only [SCtx.stopsTop, SCtx.stopsMid, Bool.false_and, Bool.and_false, Bool.false_eq_true, if_false]
     cases hev : sevent cfg cur ev with
     | stop r => rfl
     | cont c resp perms => simp only [ih]
 
+/-- **A context that becomes done while the closing `<success/>` is being written, or later,
+changes nothing** — wherever the implementation looks: if the exchange with a live context
+authenticates after `n` elements, then with a context that becomes done at tick `2(i+n)` (the
+write that follows the last test of the loop) or later the run is that same exchange.  By then
+everything the property demands has happened. -/
+theorem C03_server_ctx_late (cfg : List (String × Mech)) (ctx : SCtx) (t : Nat)
+    (ht : ctx.doneAt = some t) (peer : List SEv) :
+    ∀ (cur : Option SCur) (i : Nat), (serverLoop cfg cur peer).authn = true →
+      2 * (i + (serverLoop cfg cur peer).consumed) ≤ t →
+      serverLoopC cfg ctx cur i peer = serverLoop cfg cur peer := by
+  induction peer with
+  | nil => intro cur i h; simp [serverLoop] at h
+  | cons ev rest ih =>
+    intro cur i h hc
+    unfold serverLoop at h hc ⊢
+    unfold serverLoopC
+    cases hev : sevent cfg cur ev with
+    | stop r =>
+      simp only [hev] at h hc ⊢
+      rw [sevent_stop_consumed hev] at hc
+      have h1 : ctx.stopsTop i = false := by
+        simp only [SCtx.stopsTop, SCtx.done, ht, Bool.and_eq_false_iff, decide_eq_false_iff_not]
+        right; omega
+      have h2 : ctx.stopsMid i = false := by
+        simp only [SCtx.stopsMid, SCtx.done, ht, Bool.and_eq_false_iff, decide_eq_false_iff_not]
+        right; omega
+      simp [h1, h2]
+    | cont c resp perms =>
+      simp only [hev, SRes.after_authn, SRes.after_consumed] at h hc ⊢
+      have h1 : ctx.stopsTop i = false := by
+        simp only [SCtx.stopsTop, SCtx.done, ht, Bool.and_eq_false_iff, decide_eq_false_iff_not]
+        right; omega
+      have h2 : ctx.stopsMid i = false := by
+        simp only [SCtx.stopsMid, SCtx.done, ht, Bool.and_eq_false_iff, decide_eq_false_iff_not]
+        right; omega
+      simp only [h1, h2, Bool.false_eq_true, if_false]
+      rw [ih (some c) (i + 1) h (by omega)]
+
 -- non-vacuity: the context is done before the first element / between the two round trips of
--- a two-step mechanism: an implementation that looks gives up, one that does not completes
+-- a two-step mechanism / inside the last Step / while <success/> is written: an
+-- implementation that looks gives up where it looks, one that does not completes
 example :
     let mech : Mech := fun h => if h.length < 2 then { kind := .more, resp := [1] } else { kind := .done, resp := [2] }
     let peer := [SEv.auth "M" (.valid [7]), .response .eq]
-    (serverLoopC [("M", mech)] ⟨true, some 0⟩ none 0 peer).err = .ctxErr ∧
-    (serverLoopC [("M", mech)] ⟨true, some 1⟩ none 0 peer).err = .ctxErr ∧
-    (serverLoopC [("M", mech)] ⟨true, some 1⟩ none 0 peer).sent = [.challenge [1]] ∧
-    (serverLoopC [("M", mech)] ⟨true, some 2⟩ none 0 peer).authn = true ∧
-    (serverLoopC [("M", mech)] ⟨false, some 0⟩ none 0 peer).authn = true := by
+    let all : Nat → Bool := fun _ => true
+    let odd : Nat → Bool := fun i => i % 2 == 1
+    (serverLoopC [("M", mech)] ⟨all, fun _ => false, some 0⟩ none 0 peer).err = .ctxErr ∧
+    (serverLoopC [("M", mech)] ⟨all, fun _ => false, some 1⟩ none 0 peer).err = .ctxErr ∧
+    (serverLoopC [("M", mech)] ⟨all, fun _ => false, some 1⟩ none 0 peer).sent = [.challenge [1]] ∧
+    -- looks only at odd iterations: a context done from the start is noticed at iteration 1
+    (serverLoopC [("M", mech)] ⟨odd, fun _ => false, some 0⟩ none 0 peer).sent = [.challenge [1]] ∧
+    (serverLoopC [("M", mech)] ⟨odd, fun _ => false, some 0⟩ none 0 peer).err = .ctxErr ∧
+    -- done inside the last Step: noticed by a mid test only
+    (serverLoopC [("M", mech)] ⟨all, fun _ => false, some 3⟩ none 0 peer).authn = true ∧
+    (serverLoopC [("M", mech)] ⟨all, all, some 3⟩ none 0 peer).err = .ctxErr ∧
+    (serverLoopC [("M", mech)] ⟨all, all, some 3⟩ none 0 peer).sent = [.challenge [1]] ∧
+    -- done while <success/> is written: nobody notices
+    (serverLoopC [("M", mech)] ⟨all, all, some 4⟩ none 0 peer).authn = true ∧
+    (serverLoopC [("M", mech)] {doneAt := some 0} none 0 peer).authn = true := by
+  decide
+
+/-! ### the permission callback and mechanisms other than PLAIN (known finding)
+
+Full strength would be: *for every configured mechanism* an authenticated exchange holds an
+accepting verdict of the application's permission callback —
+
+    ∀ cfg peer, (serverNeg cfg peer).authn = true → ∃ p ∈ (serverNeg cfg peer).perms, p.verdict = true
+
+`sasl.go` leaves consulting the callback to the mechanism, and `mellium.im/sasl`'s ANONYMOUS
+(observed through the real mechanism on every run: `srv-real-ANONYMOUS`) completes without
+consulting it.  So the statement is proved for PLAIN (`C03_server_plain_permission`, the
+partial theorem) and fails in general: -/
+
+/-- ANONYMOUS as observed: one `Step`, done, no data, the callback is never called -/
+def anonymousServer : Mech := fun _ => { kind := .done }
+
+theorem C03_server_permission_any_mechanism_fails :
+    ¬ (∀ (cfg : List (String × Mech)) (peer : List SEv), (serverNeg cfg peer).authn = true →
+        ∃ p ∈ (serverNeg cfg peer).perms, p.verdict = true) := by
+  intro h
+  have := h [("ANONYMOUS", anonymousServer)] [.auth "ANONYMOUS" .empty] (by decide)
+  revert this
   decide
 
 /-! ### a `Step` that panics -/
